@@ -2,39 +2,36 @@
 not parse results (writer, sorter, library histories) can be stored in replay files."""
 
 
-def block(spec):
+def block(spec, line=None):
     """A trailing dict {"line": n} in a spec sets the block's start_line (any kind)."""
     from bibtexparser import model as M
     if isinstance(spec[-1], dict):
-        b = block(spec[:-1])
-        target = b.ignore_error_block if spec[0] in ("dupfield",) else b
-        b._start_line_in_file = spec[-1]["line"]
-        return b
+        return block(spec[:-1], line=spec[-1]["line"])
     k = spec[0]
     if k == "entry":
         _, typ, key, fields = spec[:4]
         raw = spec[4] if len(spec) > 4 else None
-        line = spec[5] if len(spec) > 5 else None
+        line = line if line is not None else (spec[5] if len(spec) > 5 else None)
         return M.Entry(typ, key, [M.Field(fk, fv, i) for i, (fk, fv) in enumerate(fields)], start_line=line, raw=raw)
     if k == "string":
-        return M.String(spec[1], spec[2], raw=spec[3] if len(spec) > 3 else None)
+        return M.String(spec[1], spec[2], raw=spec[3] if len(spec) > 3 else None, start_line=line)
     if k == "preamble":
-        return M.Preamble(spec[1], raw=spec[2] if len(spec) > 2 else None)
+        return M.Preamble(spec[1], raw=spec[2] if len(spec) > 2 else None, start_line=line)
     if k == "ecomment":
-        return M.ExplicitComment(spec[1], raw=spec[2] if len(spec) > 2 else None)
+        return M.ExplicitComment(spec[1], raw=spec[2] if len(spec) > 2 else None, start_line=line)
     if k == "icomment":
-        return M.ImplicitComment(spec[1], raw=spec[2] if len(spec) > 2 else None)
+        return M.ImplicitComment(spec[1], raw=spec[2] if len(spec) > 2 else None, start_line=line)
     if k == "failed":
         from bibtexparser.exceptions import BlockAbortedException
-        return M.ParsingFailedBlock(error=BlockAbortedException("synthetic abort", 0), raw=spec[1], start_line=0)
+        return M.ParsingFailedBlock(error=BlockAbortedException("synthetic abort", 0), raw=spec[1], start_line=0 if line is None else line)
     if k == "dupkey":
         inner = block(spec[2])
-        return M.DuplicateBlockKeyBlock(key=spec[1], previous_block=inner, duplicate_block=inner, raw=inner.raw, start_line=0)
+        return M.DuplicateBlockKeyBlock(key=spec[1], previous_block=inner, duplicate_block=inner, raw=inner.raw, start_line=0 if line is None else line)
     if k == "dupfield":
-        inner = block(spec[2])
+        inner = block(spec[2], line=line)
         return M.DuplicateFieldKeyBlock(duplicate_keys=set(spec[1]), entry=inner)
     if k == "mwerror":
-        inner = block(spec[1])
+        inner = block(spec[1], line=line)
         kind = spec[2] if len(spec) > 2 else "ValueError"
         if kind == "partial":
             from bibtexparser.exceptions import PartialMiddlewareException
